@@ -618,8 +618,33 @@ def valid_cheap(st, goal, timeout=2000):
     for a in st.pc:
         if is_cheap(a):
             s.add(a)
+        else:
+            b = _simplified(a)      # beta-reduces selects over lambda arrays
+            if b is not None:
+                s.add(b)
     s.add(z3.Not(goal))
     return s.check() == z3.unsat
+
+
+_simp_cache = {}
+
+
+def _simplified(a):
+    from .symex import is_cheap
+    k = a.get_id()
+    ent = _simp_cache.get(k)
+    if ent is not None and ent[0].eq(a):
+        return ent[1]
+    r = None
+    if not z3.is_quantifier(a):
+        try:
+            b = z3.simplify(a)
+            if is_cheap(b):
+                r = b
+        except Exception:
+            r = None
+    _simp_cache[k] = (a, r)
+    return r
 
 
 def valid(asm, goal, timeout=3000):
@@ -665,20 +690,23 @@ def elem_constants(C, W, run_body, make_head, elem_term):
     with Muted(ex):
         outs = run_body(head)
     res = {}
+    oks = [o for o in outs if o.kind in ('ok', 'cnt')]
     for k in keys:
         val = None
-        ok = True
-        for o in outs:
-            if o.kind not in ('ok', 'cnt'):
-                continue
+        ok = bool(oks)
+        for o in oks:
             arr = o.st.heap.get(k)
             if arr is None:
                 ok = False
                 break
             v = z3.simplify(z3.Select(arr, elem_term))
             if not (z3.is_int_value(v) or z3.is_true(v) or z3.is_false(v) or z3.is_rational_value(v)):
-                ok = False
-                break
+                # not syntactically a literal (e.g. written through a callee's contract): ask for the value
+                cand = val if val is not None else model_value(o.st, v)
+                if cand is None or not valid_cheap(o.st, v == cand):
+                    ok = False
+                    break
+                v = cand
             if val is None:
                 val = v
             elif not val.eq(v):
@@ -687,6 +715,29 @@ def elem_constants(C, W, run_body, make_head, elem_term):
         if ok and val is not None:
             res[k] = val
     return res
+
+
+def model_value(st, term):
+    "a value of term in some model of the cheap part of the path condition (a *candidate*, to be validated)"
+    from .symex import is_cheap
+    s = z3.Solver()
+    s.set('timeout', 1000)
+    for a in st.pc:
+        if is_cheap(a):
+            s.add(a)
+        else:
+            b = _simplified(a)
+            if b is not None:
+                s.add(b)
+    if s.check() != z3.sat:
+        return None
+    try:
+        v = s.model().eval(term, model_completion=True)
+    except Exception:
+        return None
+    if z3.is_int_value(v) or z3.is_true(v) or z3.is_false(v) or z3.is_rational_value(v):
+        return v
+    return None
 
 
 def counter_candidates(C, W, pre, head_of):
